@@ -134,12 +134,13 @@ fn check_outcome(r: &Result<Cfg, crate::config::errors::ConfigLoadError>, vals: 
         assert!(fv::ENV_IGNORES_PROFILE, "PX_PROFILE is not excluded from the configuration keys");
         assert!(fv::BASE_FILE_OK, "the base file is not <dir>/base.yml");
         assert!(fv::PROFILE_FILE_OK, "the profile file is not <dir>/<profile>.yml");
+        assert!(fv::DIR_OK, "a configuration file was looked up outside the configured directory");
     }
 }
 
 // @tier quick
 // @obligation with an explicit profile (and PX_PROFILE absent, equal, different or invalid): the explicit profile selects the file; for every presence/value pattern of 2 keys over the 3 sources, each key is taken from the environment if present there, else the profile file, else the base file; a key defined nowhere makes load() fail; the environment provider gets prefix PX_, separator __ and ignores PROFILE; the files named are <dir>/base.yml and <dir>/<profile>.yml
-// @bounds 2 keys x 3 sources (presence and u8 value arbitrary); profiles {dev, prd}; relative configuration directory "conf"
+// @bounds 2 keys x 3 sources (presence and u8 value arbitrary); profiles {dev, prd}; configuration directory relative ("cf") or absolute ("/a")
 // @functions ConfigLoader::new, ConfigLoader::profile, ConfigLoader::configuration_dir, ConfigLoader::load
 // @timeout 1800
 #[kani::proof]
@@ -154,9 +155,13 @@ fn c18_precedence_explicit_profile() {
     let e: u8 = nd::u8_below(4);
     set_env_profile(e);
     unsafe { LAST_PROFILE_ASKED = 0 };
+    unsafe { fv::DIR_OK = true };
     vtrace(&vals, Some(p), e);
     unsafe { fv::EXPECT_PROFILE_FILE = if p == Prof::Dev { *b"/dev.yml" } else { *b"/prd.yml" } };
-    let r: Result<Cfg, _> = ConfigLoader::<Prof>::new().profile(p).configuration_dir("conf").load();
+    // relative or absolute configuration directory
+    let abs: bool = nd::any_bool();
+    unsafe { fv::EXPECT_DIR = if abs { "/a" } else { "cf" } };
+    let r: Result<Cfg, _> = ConfigLoader::<Prof>::new().profile(p).configuration_dir(if abs { "/a" } else { "cf" }).load();
     check_outcome(&r, &vals);
     kani::cover!(r.is_ok() && vals[2][0].is_some() && vals[1][0].is_some() && vals[0][0].is_some(), "all three sources define k0");
     kani::cover!(r.is_err(), "a key defined nowhere");
@@ -179,8 +184,10 @@ fn c18_profile_from_environment() {
     let e: u8 = nd::u8_below(4);
     set_env_profile(e);
     unsafe { LAST_PROFILE_ASKED = 0 };
+    unsafe { fv::DIR_OK = true };
     vtrace(&vals, None, e);
     unsafe { fv::EXPECT_PROFILE_FILE = if e == 2 { *b"/prd.yml" } else { *b"/dev.yml" } };
+    unsafe { fv::EXPECT_DIR = "configuration" };
     let r: Result<Cfg, _> = ConfigLoader::<Prof>::new().load();
     if e == 0 || e == 3 {
         assert!(r.is_err(), "a missing or unknown PX_PROFILE must be an error, not a default profile");
@@ -202,6 +209,7 @@ mod native_search {
             fv::ENV_IGNORES_PROFILE = false;
             fv::PROFILE_FILE_OK = false;
             fv::BASE_FILE_OK = false;
+            fv::DIR_OK = true;
             LAST_PROFILE_ASKED = 0;
         }
     }
